@@ -123,3 +123,22 @@ def gen_uvl():
     body = STR_HDR + table_fn("uvl_operator", pairs, None)
     body += "Definition uvl_keywords : list string :=\n  [" + "; ".join(coq_str(w) for w in sorted(words)) + "].\n"
     write("uvl", body)
+
+
+@register("afm")
+def gen_afm():
+    wtree = parse(f"{REPO_PKG}/transformations/afm_writer.py")
+    pairs = dict_astop_to_str(find_assign(wtree, "AFM_OPERATORS"))
+    rtree = parse(f"{REPO_PKG}/transformations/afm_reader.py")
+    rmap = find_assign(rtree, "binary_operations_map")
+    if not isinstance(rmap, ast.Dict):
+        raise SystemExit("gen_tables: binary_operations_map is not a dict literal")
+    body = STR_HDR + table_fn("afm_operator", pairs, None)
+    body += "Definition afm_operator_of_keyword (s : string) : option astop :=\n"
+    for k, v in zip(rmap.keys, rmap.values):
+        if not (isinstance(k, ast.Constant) and isinstance(k.value, str) and isinstance(v, ast.Attribute)
+                and isinstance(v.value, ast.Name) and v.value.id == "ASTOperation"):
+            raise SystemExit("gen_tables: unexpected entry in binary_operations_map")
+        body += f"  if String.eqb s {coq_str(k.value)} then Some {v.attr} else\n"
+    body += "  None.\n"
+    write("afm", body)
